@@ -33,6 +33,11 @@ def main(tier):
     # (4) every quiescent point of delivery/retry histories: requested timeout versus earliest due time, spin detection
     prof = {"lifetimes": [604800, 604800, 3000, 500], "p_alrm": 0.06, "p_term_restart": 0.05, "max_msgs": 4}
     rh = histrun.run(PROP, b, core.scaled(800 if quick else 6000), prof, ["RetryOracle", "WakeupOracle"], salt="h")
+    # "due now (its retry time has come, or an ALRM made it due), slots free, and the daemon asks to sleep" is the retry oracle's
+    # C15/not-retried-promptly; it is just as much sleeping past the earliest due event (seed c16-s6)
+    for v in rh.violations:
+        if v["key"].startswith("C15/not-retried-promptly/"):
+            v["key"] = "C16/sleeps-although-due-now/" + v["key"].split("/", 2)[2]
     rh.violations = [v for v in rh.violations if v["key"].startswith("C16/")]
     res.merge(rh)
     rule = ("(1) all %d merges (non-decreasing 4-tuples over 0..%d) of one qmail-queue's {link todo, open/write/close trigger} with "
